@@ -4,6 +4,7 @@ import OpusProofs.DecSkelMsFull
 import OpusProofs.DecSkelRanges
 import OpusProofs.DecSkelShift
 import OpusProofs.CeltIdx
+import OpusProofs.CeltIdxCalls
 /-
   Property C01 — "Decoding is total and memory-safe for arbitrary packets and call histories".
 
@@ -515,5 +516,77 @@ open Opus.CeltIdx in
 theorem celt_postfilter_period_invariant {LM pOld pCur pNew : Int} (hc : PeriodOk pCur) (hn : PeriodOk pNew) :
     PeriodOk (pfNext LM pOld pCur pNew).1 ∧ PeriodOk (pfNext LM pOld pCur pNew).2 :=
   pfNext_periodOk hc hn
+
+/-! ## Index-safety bridge, second part: celt_synthesis, deemphasis, prefilter_and_fold, celt_decode_lost
+
+  `OpusModel/CeltIdxCalls.lean`: the calls celt_decoder.c makes on its audio buffers (`Call`, compared with the calls
+  recorded inside the real decoder: tie lines `celtcalls`), the extent contract of each callee (`Call.accs`; the compiled
+  callees are run under the sanitizer on heap blocks holding exactly the contract's elements: tie lines `contract`) and
+  the accesses of the loops written inline (hand transcription only).  `Frame.Legal`: `N = 120·2^LM`, `LM ≤ 3`, stream
+  and decoder channel counts 1 / 2 in every combination, down-sampling factor 1, 2, 3, 4 or 6, one long or `2^LM` short
+  blocks.  `Acc.ok f xl a`: access `a` lies inside its array, whose capacity (`Arr.cap`) is the `ALLOC` / declaration
+  size in celt_decoder.c (`decode_mem[c]`: 2168, `lpc`: 24·CC, `freq`, `scratch`: N, `X`: C·N, `pcm`:
+  frame_size·CC, `_exc`: 1048, `fir_tmp`: exc_length, `lp_pitch_buf`: 1024, `etmp`: 120, `lpc_mem`: 24, `ac`: 25). -/
+
+open Opus.CeltIdx in
+/-- **celt_synthesis_indices_in_bounds.**  For every legal frame, every access of `celt_synthesis` (:371-460) —
+    `denormalise_bands` into `freq` (or, for a stereo stream into a mono decoder, into `out_syn[0]+overlap/2`), the parked
+    copy of the spectrum in `out_syn[1]+overlap/2` for a mono stream into a stereo decoder, each `clt_mdct_backward`
+    block (input `freq[b], freq[b+B], …`, output `out_syn[c]+NB·b .. +NB+overlap/2`, TDAC over the first `overlap`
+    samples), the down-mix and the final saturation — lies inside its array; the highest element written is
+    `decode_mem[c][DECODE_BUFFER_SIZE+overlap/2−1]`. -/
+theorem celt_synthesis_indices_in_bounds {f : Frame} (hf : f.Legal) {a : Acc}
+    (ha : a ∈ (synthCalls f).flatMap Call.accs ++ synthInline f) : a.ok f 0 :=
+  synth_ok hf ha
+
+open Opus.CeltIdx in
+/-- **celt_deemphasis_indices_in_bounds.**  `deemphasis` (:277-369) with and without down-sampling and accumulation:
+    reads `out_syn[c][0 .. N)`, writes `scratch[0 .. N)` and reads `scratch[j·downsample]`, `j < N/downsample`, writes
+    (reads, when accumulating) `pcm[c + j·CC]` — all inside `scratch[N]` and the caller's `frame_size·CC` samples. -/
+theorem celt_deemphasis_indices_in_bounds {f : Frame} (hf : f.Legal) (accum : Bool) {a : Acc}
+    (ha : a ∈ deemphAccs f accum) : a.ok f 0 :=
+  deemph_ok hf accum ha
+
+open Opus.CeltIdx in
+/-- **celt_prefilter_fold_indices_in_bounds.**  `prefilter_and_fold` (:507-541) for any post-filter periods the state can
+    hold: `comb_filter(etmp, out_syn[c], T_old, T, overlap, …)` reads back at most 1025 samples before `out_syn[c]`
+    (lowest index `2048−960−1025 = 63`) and writes `etmp[0 .. overlap)`; the fold writes `out_syn[c][0 .. overlap/2)`. -/
+theorem celt_prefilter_fold_indices_in_bounds {f : Frame} (hf : f.Legal) {pOld pCur : Int} (ho : PeriodOk pOld)
+    (hc : PeriodOk pCur) {a : Acc} (ha : a ∈ (foldCalls f pOld pCur).flatMap Call.accs ++ foldInline f) : a.ok f 0 :=
+  fold_ok hf ho hc ha
+
+open Opus.CeltIdx in
+/-- **celt_plc_indices_in_bounds.**  `celt_decode_lost` (:596-962).
+    Pitch-based concealment, for every pitch lag in `[PLC_PITCH_LAG_MIN, PLC_PITCH_LAG_MAX] = [100, 720]` (what
+    `celt_plc_pitch_search` returns and `VALIDATE_CELT_DECODER` asserts), first or later lost frame: the pitch search
+    (`pitch_downsample` over `decode_mem[c][0 .. 2048)` into `lp_pitch_buf[1024]`, `pitch_search` on
+    `lp_pitch_buf+360` / `lp_pitch_buf` reaching exactly element 1023 / 973), per channel the excitation copy into
+    `_exc[0 .. 1048)`, `_celt_autocorr`, `_celt_lpc` into `lpc[24c ..]`, `celt_fir` from `exc+1024−exc_length−24`
+    (≥ `_exc[0]`) into `fir_tmp[exc_length]`, the decay measurement, the buffer shift, the extrapolation writing
+    `buf[2048−N .. 2048+overlap)` from `exc[1024−pitch ..]` and reading `buf[2048−N−pitch ..]` (lowest index 368),
+    `lpc_mem`, `celt_iir` in place over `N+overlap` samples and the energy check — all inside their arrays.
+    Noise-based concealment (frame descriptor with `C = CC`, one long block): the shift, `prefilter_and_fold` when it is
+    pending, and the synthesis. -/
+theorem celt_plc_indices_in_bounds {f : Frame} (hf : f.Legal) :
+    (∀ (pitch : Int) (first : Bool) (a : Acc), PitchOk pitch →
+      a ∈ (plcPitchCalls f pitch first).flatMap Call.accs ++ (List.range f.CC.toNat).flatMap (plcPitchInlineCh f pitch) →
+      a.ok f (excLen pitch)) ∧
+    (f.C = f.CC → f.B = 1 → ∀ (fold : Bool) (pOld pCur : Int) (a : Acc), PeriodOk pOld → PeriodOk pCur →
+      a ∈ (plcNoiseCalls f fold pOld pCur).flatMap Call.accs ++ (if fold then foldInline f else []) ++
+        synthInline { f with C := f.CC, B := 1 } → a.ok f 0) :=
+  ⟨fun _ first _ hp ha => plcPitch_ok hf hp first ha,
+   fun hC hB fold _ _ _ ho hc ha => plcNoise_ok hf hC hB fold ho hc ha⟩
+
+open Opus.CeltIdx in
+/-- Non-vacuity: a 20 ms transient stereo frame at 8 kHz is legal and makes 2·(1+8) calls; the last MDCT block of a
+    channel writes up to `decode_mem[c][2107]` (< 2168); a first lost 20 ms frame with pitch lag 100 filters
+    `exc_length = 200` samples starting at `_exc[824]`, with lag 720 it starts at `_exc[0]`. -/
+example : Frame.Legal ⟨960, 3, 2, 2, 6, 8⟩ ∧ (synthCalls ⟨960, 3, 2, 2, 6, 8⟩).length = 18 ∧
+    (Call.mdct ⟨.freq, 7⟩ 8 ⟨.mem 1, 1928⟩ 120 120).accs.map (·.ext) = [⟨7, 959⟩, ⟨1988, 2107⟩, ⟨1928, 2047⟩, ⟨1928, 2047⟩] ∧
+    PitchOk 100 ∧ PitchOk 720 ∧ excLen 100 = 200 ∧ excLen 720 = 1024 ∧
+    ((plcPitchCallsCh ⟨960, 3, 1, 1, 1, 1⟩ 100 false 0).head?.map (fun c => c.accs.map (·.ext))) =
+      some [⟨824, 1047⟩, ⟨0, 23⟩, ⟨0, 199⟩] ∧
+    ((plcPitchCallsCh ⟨960, 3, 1, 1, 1, 1⟩ 720 false 0).head?.map (fun c => c.accs.map (·.ext))) =
+      some [⟨0, 1047⟩, ⟨0, 23⟩, ⟨0, 1023⟩] := by decide
 
 end OpusProps.C01
